@@ -67,8 +67,8 @@ type scen struct {
 	cur      int // selected fixture variant, -1 before the selection
 
 	// model state (function of the history)
-	monthsLeft    int64   // months-left the next refill must divide by
-	provStart     sdk.Int // providers' distribution pool right after the last refill (= start of the month)
+	monthsLeft int64   // months-left the next refill must divide by
+	provStart  sdk.Int // providers' distribution pool right after the last refill (= start of the month)
 }
 
 type snap struct {
@@ -173,13 +173,13 @@ func build() *scen {
 				w.Must("pay", s.pay(1, 1))
 				adv(chain.BlockDt)
 				adv(time.Unix(s.refillTime(), 0).Add(time.Minute).Sub(w.Ctx.BlockTime())) // 1 June 01:02:01
-				adv(chain.BlockDt)                                                           // the June refill
+				adv(chain.BlockDt)                                                        // the June refill
 				sub, ok := w.Keepers.Subscription.GetSubscription(w.Ctx, s.cons[0].Addr.String())
 				if !ok {
 					panic("fixture: c0 has no subscription")
 				}
 				adv(time.Unix(int64(sub.MonthExpiryTime), 0).Sub(w.Ctx.BlockTime())) // c0's month ends
-				for i := 0; i < 4; i++ {                                              // one epoch later c1's month ends
+				for i := 0; i < 4; i++ {                                             // one epoch later c1's month ends
 					adv(chain.BlockDt)
 				}
 				if n := len(w.Keepers.Subscription.ExportCuTrackerTimers(w.Ctx).BlockEntries); n != 2 {
@@ -261,7 +261,14 @@ func (s *scen) Reset() {
 func (s *scen) Fork() func() {
 	r := s.w.Fork()
 	ml, ps, cur, rate, start := s.monthsLeft, s.provStart, s.cur, s.rate, s.start
-	return func() { r(); s.monthsLeft = ml; s.provStart = ps; s.cur = cur; s.rate = rate; s.start = start }
+	return func() {
+		r()
+		s.monthsLeft = ml
+		s.provStart = ps
+		s.cur = cur
+		s.rate = rate
+		s.start = start
+	}
 }
 
 func (s *scen) Hash() []byte {
